@@ -82,7 +82,8 @@ def readLoop : Nat → State → Int → Bytes → State × Bytes
 def read (s : State) (n : Nat) : State × Bytes :=
   let short := decide ((n : Int) + s.tellg > s.fileSize)
   let n' : Int := if short then s.fileSize - s.tellg else n
-  let s1 := if !short && n == 0 then { s with gcount := 0 } else { s with good := !short, eof := short, gcount := 0 }
+  let s1 := if !short && n == 0 then { s with gcount := 0, readDemand := 0 }
+            else { s with good := !short, eof := short, gcount := 0, readDemand := 0 }
   readLoop (n + 1) s1 n' []
 
 def seekg (s : State) (off : Int) : State := { s with tellg := min (s.tellg + off) s.fileSize }
